@@ -309,6 +309,58 @@ def skip_flatten_test(ctx, rng):
                 break
 
 
+def nested_skip_section(ctx):
+    """non-exported glyphs nested TWO deep: I -> _pillar -> _stem with both _pillar and _stem not exported (by lib / argument),
+    a mixed glyph using _pillar, a composite of composites above; default options, flattenComponents, convertCubics=False.
+    Every exported glyph renders what it renders when nothing is skipped, and no reference dangles"""
+    import ufo2ft
+    from harness.props.c13 import flat_contours, same_rendering
+    from fontTools.ttLib import TTFont
+    sq = lambda x, y, w, h: [[(Fr(x), Fr(y), "line"), (Fr(x + w), Fr(y), "line"), (Fr(x + w), Fr(y + h), "line"), (Fr(x), Fr(y + h), "line")]]
+    one = (Fr(1), Fr(0), Fr(0), Fr(1))
+    for i in range(ctx.budget(6, 12)):
+        lib = ["ufoLib2", "defcon"][i % 2]
+        kw = [{}, {"flattenComponents": True}, {"convertCubics": False}][(i // 2) % 3]
+        skip = [["_pillar", "_stem"], ["_stem", "_pillar"]][i % 2]
+        desc = {"glyphs": [
+            {"name": "_stem", "unicodes": [], "width": Fr(100), "contours": sq(0, 0, 80, 700), "components": [], "anchors": []},
+            {"name": "_pillar", "unicodes": [], "width": Fr(200), "contours": [], "anchors": [],
+             "components": [("_stem", one + (Fr(10), Fr(0))), ("_stem", one + (Fr(110), Fr(5)))]},
+            {"name": "I", "unicodes": [0x49], "width": Fr(300), "contours": [], "anchors": [], "components": [("_pillar", one + (Fr(40), Fr(0)))]},
+            {"name": "H", "unicodes": [0x48], "width": Fr(700), "contours": [], "anchors": [],
+             "components": [("I", one + (Fr(0), Fr(0))), ("I", one + (Fr(350), Fr(0)))]},
+            {"name": "J", "unicodes": [0x4A], "width": Fr(400), "contours": sq(0, -100, 200, 60), "anchors": [],
+             "components": [("_pillar", (Fr(1, 2), Fr(0), Fr(0), Fr(1), Fr(150), Fr(0)))]}],
+            "glyphOrder": ["_stem", "_pillar", "I", "H", "J"], "lib": {}}
+        via_lib = (i // 6) % 2 == 0
+        if via_lib:
+            desc["lib"]["public.skipExportGlyphs"] = list(skip)
+        kw2 = dict(kw) if via_lib else dict(kw, skipExportGlyphs=list(skip))
+        case = {"font": jsonable(desc), "lib": lib, "skipExportGlyphs": skip, "given_by": "lib" if via_lib else "argument", "options": jsonable(kw),
+                "level": "non-exported glyphs nested two deep"}
+        ctx.count(); ctx.klass("nested skip: %s" % (sorted(kw) or ["default"])[0]); ctx.nontriv(("ns", i, ctx.scale))
+        try:
+            tt = ufo2ft.compileTTF(build_font(desc, lib), useProductionNames=False, **kw2)
+            b = io.BytesIO(); tt.save(b); tt = TTFont(io.BytesIO(b.getvalue()))
+            ref = ufo2ft.compileTTF(build_font(dict(desc, lib={}), lib), useProductionNames=False, **kw)
+            b = io.BytesIO(); ref.save(b); ref = TTFont(io.BytesIO(b.getvalue()))
+        except Exception as e:
+            ctx.spec_failure(case, "compileTTF raised %s: %s\n%s" % (type(e).__name__, e, traceback.format_exc()[-1000:]))
+            continue
+        if [n for n in tt.getGlyphOrder() if n != ".notdef"] != ["I", "H", "J"]:
+            ctx.spec_failure(dict(case, glyph_order=tt.getGlyphOrder()), "glyph order with the two non-exported glyphs: %r" % tt.getGlyphOrder())
+            continue
+        for n in ("I", "H", "J"):
+            g = tt["glyf"][n]
+            if g.isComposite() and any(c.glyphName not in tt.getGlyphOrder() for c in g.components):
+                ctx.spec_failure(dict(case, glyph=n), "%r refers to a glyph that is not in the font" % n)
+                break
+            if not same_rendering(flat_contours(ref, n), flat_contours(tt, n), tol=1.5):
+                ctx.spec_failure(dict(case, glyph=n, contours=len(flat_contours(tt, n)), expected_contours=len(flat_contours(ref, n))),
+                                 "%r renders differently (%d contours, %d when nothing is skipped)" % (n, len(flat_contours(tt, n)), len(flat_contours(ref, n))))
+                break
+
+
 def interp_flatten_section(ctx):
     """flattenComponents through compileInterpolatableTTFs on a plain LIST of fonts (no designspace) whose sources differ in
     what they hold: a partial source (one base glyph only) listed first / last / absent, next to a full one with a chain
@@ -419,6 +471,7 @@ def cubic_distance_test(ctx, rng):
     skip_flatten_test(ctx, rng)
     unrounded_distance_test(ctx, rng)
     variable_composite_section(ctx)
+    nested_skip_section(ctx)
     import ufo2ft
     from fontTools.ttLib import TTFont
     for i in range(ctx.budget(12, 80)):
